@@ -623,6 +623,8 @@ func c19CacheScenarios() []sched {
 		// shut down in both ways one after the other (the context ends, then Destroy), then later changes of every
 		// setting the cache follows: nobody is left to take them
 		ps = append(ps, sched{Name: "changes-after-cancel-and-destroy/" + be, cp: base, Prop: "C19", Init: []string{"S:a:20", "C", "Q", "X", "Q"}, Threads: [][]string{{"I:5", "I:7", "I:9"}, {"L:900", "L:901"}}, Final: []string{"Q"}, ExpectNoStuckNotification: true, ExpectNotNotifiedAfterDestroy: true})
+		// the context the cache was created with ends (that is how main shuts the cache down) and nothing else
+		ps = append(ps, sched{Name: "changes-after-cancel/" + be, cp: base, Prop: "C19", Init: []string{"S:a:20", "C", "Q"}, Threads: [][]string{{"I:5", "I:7", "I:9"}, {"L:900", "L:901"}}, Final: []string{"Q"}, ExpectNoStuckNotification: true})
 		ps = append(ps, sched{Name: "changes-after-destroy/" + be, cp: base, Prop: "C19", Init: []string{"S:a:20", "X", "Q"}, Threads: [][]string{{"I:5", "I:7", "I:9"}, {"L:900", "L:901"}}, Final: []string{"Q"}, ExpectNoStuckNotification: true, ExpectNotNotifiedAfterDestroy: true})
 	}
 	return ps
